@@ -17,6 +17,10 @@
                                                 cmb_random_std_gamma; the rejection loop behind it is an abstract input);
                                                 zig_exp_support (+ exp_tables_ok, expTab_facts); exponential-based samplers
                                                 are sums / positive multiples of it (not restated)
+    "its samples follow the stated distribution" (slow paths only, as algorithms): nor_tail_is_marsaglia,
+                                                nor_tail_result_is_marsaglia, nor_tail_constants, nor_tail_support (the tail
+                                                branch of the normal ziggurat IS Marsaglia's tail algorithm with c·r = 1),
+                                                zig_exp_tail_offset (the exponential tail is offset + a fresh variate)
     "the build-time generated ziggurat and alias tables"   exp_tables_ok, nor_tables_ok (decide by the kernel over the tables)
     "alias tables ... probability vectors"      alias_table_valid: for EVERY vector pa (admissible or not) the construction
                                                 terminates (n units of fuel suffice) and yields a valid table
@@ -508,6 +512,55 @@ theorem zig_exp_support (fexp : Rat → Rat) (raw : Nat → Nat) (fuel k : Nat) 
     simp only [cnum_ofNat]
     exact mul_nonneg (expTab_facts.x_nonneg _) (by positivity)
   · exact notHot_nonneg _ expTab_facts fexp raw _ _ _ _ _ (le_refl _) hr
+
+/-- The tail of the exponential ziggurat is "offset + Exp(1)" (memoryless): a value returned by the slow path after the tail offset
+    has reached `xoff` is at least `xoff` — in particular each pass through the tail layer moves the result beyond one more
+    `exp_zig_x_tail_start`.  (Hand model Rng/Zig.lean, tied bit for bit to the library: dropping the offset on any return path
+    breaks that tie — seeded change C16-a — or this theorem.) -/
+theorem zig_exp_tail_offset (fexp : Rat → Rat) (raw : Nat → Nat) (fuel k ucx : Nat) (xoff : Rat) (r : Rat × Nat) (hx : 0 ≤ xoff)
+    (hr : notHot (expTab Rat) fexp raw fuel k ucx xoff = some r) : xoff ≤ r.1 :=
+  overhang_ge_zero_offset _ expTab_facts fexp raw _ _ _ _ _ hx hr
+
+/-! ### the tail branch of the normal ziggurat IS Marsaglia's tail algorithm (regenerated do-while loop of cmi_random_nor_not_hot) -/
+
+/-- one iteration of the regenerated loop = one iteration of Marsaglia's algorithm with the proposal scale
+    `c = nor_zig_inv_tail_start`: candidate `c * e1`, go round again iff `2 * e2 ≤ candidate²`.  (Any other constant in the
+    proposal — seeded change C16-c used `nor_zig_x_tail_start` — or another acceptance test does not satisfy this.) -/
+theorem nor_tail_is_marsaglia (e1 e2 : Rat) :
+    cmi_random_nor_not_hot_tail_iter e1 e2 = marsagliaIter nor_zig_inv_tail_start e1 e2 := by
+  unfold cmi_random_nor_not_hot_tail_iter marsagliaIter
+  rfl
+
+/-- the value returned after the loop is `sign * (candidate + r)` with `r = nor_zig_x_tail_start` -/
+theorem nor_tail_result_is_marsaglia (sign x : Rat) :
+    cmi_random_nor_not_hot_tail_result sign x = marsagliaResult nor_zig_x_tail_start sign x := by
+  unfold cmi_random_nor_not_hot_tail_result marsagliaResult
+  rfl
+
+/-- the two generated constants are what the algorithm needs: `r` is the tail start of the table (the literal in the source is the
+    value in the generated include file, and it is x[0] scaled by 2^63 to within 2^-40: `nor_tables_ok`), and the proposal scale
+    is its reciprocal up to the rounding of the 15-digit text: |c * r − 1| ≤ 2^-40 -/
+theorem nor_tail_constants :
+    nor_zig_x_tail_start = (nor_zig_x_tail_start_num : Rat) / (2 : Rat) ^ nor_zig_x_tail_start_exp ∧
+    nor_zig_inv_tail_start = (nor_zig_inv_tail_start_num : Rat) / (2 : Rat) ^ nor_zig_inv_tail_start_exp ∧
+    0 < nor_zig_x_tail_start ∧ 0 < nor_zig_inv_tail_start ∧
+    |nor_zig_inv_tail_start * nor_zig_x_tail_start - 1| ≤ 1 / (2 : Rat) ^ 40 := by
+  unfold nor_zig_x_tail_start nor_zig_inv_tail_start nor_zig_x_tail_start_num nor_zig_x_tail_start_exp
+    nor_zig_inv_tail_start_num nor_zig_inv_tail_start_exp
+  refine ⟨by norm_num, by norm_num, by norm_num, by norm_num, ?_⟩
+  rw [abs_le]
+  constructor <;> norm_num
+
+/-- accepted tail variates lie beyond the tail start on the side of their sign, and a rejected candidate is never returned:
+    for Exp(1) variates e1 ≥ 0 the result for sign = ±1 has magnitude ≥ r -/
+theorem nor_tail_support (e1 e2 : Rat) (he : 0 ≤ e1) :
+    nor_zig_x_tail_start ≤ cmi_random_nor_not_hot_tail_result 1 (cmi_random_nor_not_hot_tail_iter e1 e2).1 ∧
+    cmi_random_nor_not_hot_tail_result (-1) (cmi_random_nor_not_hot_tail_iter e1 e2).1 ≤ -nor_zig_x_tail_start := by
+  rw [nor_tail_is_marsaglia, nor_tail_result_is_marsaglia, nor_tail_result_is_marsaglia]
+  have hc := nor_tail_constants.2.2.2.1
+  have : 0 ≤ nor_zig_inv_tail_start * e1 := mul_nonneg hc.le he
+  unfold marsagliaIter marsagliaResult
+  constructor <;> simp only [] <;> linarith
 
 /-- the alias step of the exponential ziggurat never leaves the table: the overhang index is at most `zig_max + 1` -/
 theorem zig_exp_alias_index (r0 r1 : Nat) : aliasStep (expTab Rat) r0 r1 ≤ cmi_random_exp_zig_max + 1 := by
